@@ -102,6 +102,16 @@ Theorem C10_restart_partial :
 Proof. exact C10_main. Qed.
 Print Assumptions C10_restart_partial.
 
+(* What "served after a restart" means in the statements above: a cluster holds at most one object
+   per kind/namespace/name, and then exactly its objects are served, whatever was served before. *)
+Theorem C10_restart_serves_cluster :
+  forall (c : list addop) (s : served),
+    NoDup (map rid_of c) ->
+    (forall a, In a c -> aget (rid_of a) (spec_event (Restart c) s) = Some (info_of a)) /\
+    (forall r, ~ In r (map rid_of c) -> aget r (spec_event (Restart c) s) = None).
+Proof. exact spec_restart_is_cluster. Qed.
+Print Assumptions C10_restart_serves_cluster.
+
 (* REFUTED (F10): a resource deleted while the controller is down keeps its file after the restart. *)
 Theorem C10_restart_refuted :
   exists evs f v,
